@@ -163,7 +163,7 @@ def entries(doc):
     if fs is None:
         return []
     if fs[0] == "arr":
-        return [(get(e, ID)[1], e[1]) for e in fs[1]]
+        return [(((get(e, ID) or ("null",)) + (None,))[1], e[1]) for e in fs[1]]
     return [(int(k), e[1]) for k, e in fs[1]]
 
 
@@ -201,7 +201,7 @@ def present(doc, rng=None, fs_form="list", fs_order="keep", type_order="keep", m
             else:
                 es = order(es, fs_order)
             if fs_form == "dict":
-                val = ("obj", [(str(i), members(("obj", [(k, x) for k, x in m if keep_id_in_dict or k != ID]))) for i, m in es])
+                val = ("obj", [("null" if i is None else str(i), members(("obj", [(k, x) for k, x in m if keep_id_in_dict or k != ID]))) for i, m in es])
             else:
                 val = ("arr", [members(("obj", ([] if any(k == ID for k, _ in m) else [(ID, ("int", i))]) + list(m)))
                                for i, m in es])
